@@ -312,6 +312,45 @@ func proofs(c *vlib.Ctx) {
 	if cells["transcription-disagrees"] > 0 {
 		c.Infra("the transcribed verifiers of StorageProof.tla disagree with the real code on %d dishonest proofs: update the transcription", cells["transcription-disagrees"])
 	}
+	// the same function at the sizes a contract may commit to although no file of that size exists: around every power of
+	// two, around 2^64, with seeds from real block and contract ids (the quotient is supplied and checked by TLC)
+	{
+		var sizes []uint64
+		for _, e := range []uint{6, 7, 31, 32, 33, 62, 63} {
+			for d := int64(-65); d <= 65; d += 13 {
+				sizes = append(sizes, uint64(int64(uint64(1)<<e)+d))
+			}
+		}
+		for d := uint64(0); d < 130; d++ {
+			sizes = append(sizes, ^uint64(0)-d)
+		}
+		cs := chain.NewSim(chain.Params{MatDelay: 1, AllowH: 1000, RequireH: 1001, EphH: 1002, FoundH: 5000, Reward: 500, GenSC: []chain.AbsOut{{600000, "A"}}, GenSF: []chain.AbsOut{{10000, "A"}}}).CS
+		for k, size := range sizes {
+			var bid types.BlockID
+			var fcid types.FileContractID
+			for j := range bid {
+				bid[j], fcid[j] = byte(k*7+j*13+int(c.Seed)), byte(k*11+j*5+1)
+			}
+			var idx uint64
+			if pan, v := vlib.Recover(func() { idx = cs.StorageProofLeafIndex(size, bid, fcid) }); pan {
+				c.Violation("storage-proof/challenge-index-panics", fmt.Sprintf("StorageProofLeafIndex panics for file size %d: %v", size, v), map[string]any{"size": size})
+				continue
+			}
+			h := types.NewHasher()
+			bid.EncodeTo(h.E)
+			fcid.EncodeTo(h.E)
+			sd := h.Sum()
+			seed := new(bigInt).SetBytes(sd[:])
+			leaves := new(bigInt).Add(new(bigInt).SetUint64(size), new(bigInt).SetUint64(63))
+			leaves.Rsh(leaves, 6)
+			q := new(bigInt)
+			if leaves.Sign() > 0 {
+				q.Div(seed, leaves)
+			}
+			trace = append(trace, map[string]any{"seed": vlib.Limbs(seed), "bsize": vlib.Limbs(new(bigInt).SetUint64(size)), "bidx": vlib.Limbs(new(bigInt).SetUint64(idx)), "q": vlib.Limbs(q)})
+			evals++
+		}
+	}
 	// challenge index = seed mod leaves, decided by TLC over BigNat
 	const chunk = 64
 	tr, err := c.TLC(vlib.TLCOpts{SpecDirs: []string{"merkle"}, Module: "ChallengeTrace", Config: "ChallengeTrace.cfg",
